@@ -25,8 +25,25 @@
 //! non-first namespace being the target namespace (the other one must stay as it is).
 //! Engine 6 (`c04/extra.rs`): the namespace argument of `apply_to` (a name the target does not have).
 //! Engine 7 (`c04/text.rs`): every comment string over {a, n, backslash, line break, é, blank} up to a
-//! length as the value of every comment action at every level, through text (escaping).
+//! length, and over {backslash, t, r, 0, TAB, carriage return, NUL, 😀} up to a shorter length, as the
+//! value of every comment action at every level, through text (all five escapes of Tiny v2).
 //! Engine 8 (`c04/text.rs`): damaged texts (line-wise mutations of printed diffs): panics and hangs only.
+//! Engine 9 (`c04/odd.rs` `value_space`): one slot of a probed entry (key columns, target name, comment
+//! of class / field / method / parameter) takes every value of an alphabet of odd but legal texts (wide
+//! characters at the first / a middle / the last position, line-kind letters, blanks, tag letters, `$`,
+//! backslashes, the entry's own source name, a sibling's name, case variants, prefixes, extensions,
+//! multi-digit parameter indices); per value the family {absent, nameless, base, value, third value}:
+//! every ordered pair through the pair law, the diff of every pair on every other set of the family.
+//! Engine 10 (`cross_namespace`): the stated old value is what another namespace of the entry holds.
+//! Engine 11 (`long_values`): every text is k ASCII characters and a last character of 1-4 bytes, k up to
+//! 140, under every one-slot action form on four targets (the refusals quote the values).
+//! Engine 12 (`big_texts`): a region with every kind of line moved byte by byte across the offsets
+//! 512 … 65536 of the file; a 200 KB comment; pairs of sets with hundreds / thousands of entries.
+//! Engine 13 (`damaged_bytes`): files cut after every byte, bytes that are not UTF-8, long damaged
+//! lines, odd file names, a missing file, a directory: panics and hangs only.
+//! Engine 14 (`namespace_names`): namespace arguments that resemble the target namespace; three-namespace
+//! targets whose other namespace is a prefix / an extension / a case variant of the target namespace;
+//! namespace actions that state another namespace's name.
 //!
 //! Clause table (statement and quantifier of C04 → where it is decided):
 //!
@@ -46,6 +63,12 @@
 //! | each of the 4 actions × present/absent target × matching/mismatching old value at class, field, method, parameter and comment level | vacuity floors over `required_cells()`: 109 cells that must refuse, 50 that must succeed, for two and for three namespaces | engines 1, 5 |
 //! | (anchor) `apply_diff_option` | engine 3, 9 action forms × 4 targets × 2 types against a table written from the statement | exhaustive |
 //! | (anchor) two-column decoding: empty = absent, equal = none | text legs: entry lines without action (sparse diffs), `a a` lines (real diffs), comment columns holding blanks, backslashes, line breaks, non-ASCII (engine 7) | |
+//! | ... for every value a name, key or comment can legally have (PATTERNS 1, 5, 7, 9) | the same oracles (`judge_pair`, `judge_apply`, `judge_text_apply`) over engine 9: the value as old and as new value, as key column, stated against a target that holds the base / a third value / nothing; values equal to the source name, to a sibling's name, differing from the base only in case, by a prefix, by a blank | 491 families (Q and T) |
+//! | a stated old value that does not match → refused, where ANOTHER namespace holds that value | engine 10 (source name; third namespace before / behind the target namespace), engine 14 (namespace actions stating another namespace's name) | |
+//! | ... in the target namespace, chosen by NAME | engine 14: 14 names that resemble `named` must be refused on all one-slot diffs; lock-step with the reference on three-namespace targets whose other namespace is `name` / `named2` / `Named` / `official2`, either order | |
+//! | refused with an error (not a panic) whatever the length and the characters of the quoted values (PATTERN 1) | engine 11: `Panicked` is a difference in `classify`; 564 value shapes × 84 one-slot diffs × 4 targets, object and text | |
+//! | ... through the .tinydiff form, whatever the size of the file (PATTERNS 2, 3) | engine 12 through `judge_text_apply` / `judge_pair` | buffer boundaries 1024, 4096, 8192 (Q), 512 … 65536 (T) |
+//! | the second insertion order really differs | `judge_pair`: where no map has more than two entries (reversed = rotated by one) a third run with A sorted, B reversed | engines 2, 4 (methods), 9 |
 
 use std::collections::{BTreeMap, BTreeSet};
 use std::path::{Path, PathBuf};
@@ -63,6 +86,8 @@ use vcore::{json, Ctx, Stats, Value};
 mod text;
 #[path = "c04/extra.rs"]
 mod extra;
+#[path = "c04/odd.rs"]
+mod odd;
 
 // ---------------------------------------------------------------------------------------------
 // the universe
@@ -644,6 +669,13 @@ fn complete(m: &MSet) -> bool {
 		&& c.methods.values().all(|me| me.names[1].is_some() && me.params.values().all(|p| p.names[1].is_some())))
 }
 
+/// the largest number of entries in one map of the set
+fn max_map_len(m: &MSet) -> usize {
+	m.classes.values().fold(m.classes.len(), |n, c| {
+		c.methods.values().fold(n.max(c.fields.len()).max(c.methods.len()), |n, me| n.max(me.params.len()))
+	})
+}
+
 fn strip_param_src(m: &MSet) -> MSet {
 	let mut m = m.clone();
 	for c in m.classes.values_mut() {
@@ -973,6 +1005,27 @@ impl Engine {
 				let o = self.judge_inverse("inverse", a, b, &got, &extra);
 				st.outcome(&format!("pair:reordered-{o}"));
 			},
+		}
+		// Where no map has more than two entries, "reversed" and "rotated by one" are the same order: A
+		// and B were built alike above. Then once more with the entries of B the other way round than
+		// those of A (a diff that walks both sides position by position shows only then).
+		if max_map_len(a).max(max_map_len(b)) == 2 {
+			st.eval();
+			match real_diff(a, b, Order::Sorted, Order::Reversed) {
+				Err(p) => self.ctx.diff(&format!("diff:panic@{}", p.file()), &format!("diff panicked at {}: {}", p.site, p.msg), || pair_case(a, b).to_string()),
+				Ok(Err(e)) => {
+					if must_succeed {
+						self.ctx.diff("diff:refused-with-all-target-names", &format!("diff(A,B) refused although every entry of A and B has a target name (A sorted, B built in reversed insertion order): {e}"), || pair_case(a, b).to_string());
+					}
+				},
+				Ok(Ok(q3)) => {
+					st.eval();
+					let got = real_apply_obj(&q3, a, Order::Sorted, 1);
+					let extra = || format!("A built in sorted, B in reversed insertion order\ndiff(A,B) = {}", diff_json(&mapmodel::diff_from_quill(&q3)));
+					let o = self.judge_inverse("inverse", a, b, &got, &extra);
+					st.outcome(&format!("pair:opposite-order-{o}"));
+				},
+			}
 		}
 		match qd {
 			Err(e) => {
@@ -1431,8 +1484,29 @@ fn main() {
 	let nsarg_stats = extra::namespace_argument(eng);
 	let escape_len: usize = ctx.tier.pick(4, 5);
 	let escape_pair_len: usize = ctx.tier.pick(2, 3);
-	let escape_counts = text::escape_space(eng, escape_len, escape_pair_len);
+	let escape_counts_1 = text::escape_space(eng, &text::ESCAPE_ALPHABET, escape_len, escape_pair_len);
+	let escape2_len: usize = ctx.tier.pick(3, 4);
+	let escape_counts_2 = text::escape_space(eng, &text::ESCAPE_ALPHABET_2, escape2_len, 2);
+	let escape_counts = text::EscapeCounts {
+		strings: escape_counts_1.strings + escape_counts_2.strings,
+		strings_with_escape_and_non_ascii: escape_counts_1.strings_with_escape_and_non_ascii + escape_counts_2.strings_with_escape_and_non_ascii,
+		string_pairs: escape_counts_1.string_pairs + escape_counts_2.string_pairs,
+	};
 	let damaged_stats = text::damaged_texts(eng);
+	let escapes_wall = ctx.elapsed_s();
+
+	// ---- engines 9-14: odd values, other namespaces, long values, big texts, damaged bytes, namespace names
+	let values = odd::value_space(eng);
+	let values_wall = ctx.elapsed_s();
+	let cross_cases = odd::cross_namespace(eng);
+	let long_max_k: usize = 140;
+	let long_widths: &[char] = &odd::WIDTHS;
+	let long_counts = odd::long_values(eng, long_max_k, long_widths);
+	let long_wall = ctx.elapsed_s();
+	let big_boundaries: &[usize] = ctx.tier.pick(&[1024usize, 4096, 8192][..], &[512usize, 1024, 2048, 4096, 8192, 16384, 32768, 65536][..]);
+	let big_counts = odd::big_texts(eng, big_boundaries);
+	let bytes_stats = odd::damaged_bytes(eng, long_max_k);
+	let nsname = odd::namespace_names(eng);
 	let _ = std::fs::remove_dir_all(&scratch);
 
 	let tally = eng.tally.total();
@@ -1482,6 +1556,9 @@ fn main() {
 		.chain(sibling_stats.outcomes.iter().map(|(k, v)| (k.clone(), *v)))
 		.chain(nsarg_stats.outcomes.iter().map(|(k, v)| (k.clone(), *v)))
 		.chain(damaged_stats.outcomes.iter().map(|(k, v)| (k.clone(), *v)))
+		.chain(values.stats.outcomes.iter().map(|(k, v)| (format!("value-{k}"), *v)))
+		.chain(bytes_stats.outcomes.iter().map(|(k, v)| (k.clone(), *v)))
+		.chain(nsname.stats.outcomes.iter().map(|(k, v)| (k.clone(), *v)))
 		.collect();
 	let get = |k: &str| outcomes.get(k).copied().unwrap_or(0);
 
@@ -1523,6 +1600,38 @@ fn main() {
 	ctx.floor("applications with a namespace name the target does not have, refused", 100, get("namespace-argument:unknown:refused"));
 	ctx.floor("damaged texts refused by the reader", 50, get("damaged-text:read-refused"));
 	ctx.floor("damaged texts accepted by the reader (and applied without a panic)", 10, get("damaged-text:read-accepted"));
+	// odd values
+	ctx.floor("value families (one odd value in one slot)", 400, values.families);
+	ctx.floor("value space: slots probed (name, comment, key columns of class, field, method, parameter)", 14, values.by_slot.len() as u64);
+	ctx.floor("value space: pairs with A != B where apply(diff(A,B),A) == B", 2000, get("value-pair:inverse-holds-nontrivial"));
+	ctx.floor("value space: pairs through .tinydiff text", 2000, get("value-pair:text-inverse-holds"));
+	ctx.floor("value space: pairs through .tinydiff text with the lines in another order", 2000, get("value-pair:text-shuffled-inverse-holds"));
+	ctx.floor("value space: diffs of a pair on another set of the family refused", 2000, get("value-third:refused-inconsistent"));
+	ctx.floor("value space: diffs of a pair on another set of the family applied", 500, get("value-third:applied") + get("value-third:applied-where-refusal-allowed"));
+	ctx.floor("value space: sparse diffs on another set through text refused", 1000, get("value-third-text:refused-inconsistent"));
+	ctx.floor("value space: sparse diffs on another set through text applied", 200, get("value-third-text:applied") + get("value-third-text:applied-where-refusal-allowed"));
+	ctx.floor("stated old value held by another namespace: refused", 30, get("cross-namespace:refused-inconsistent"));
+	ctx.floor("stated old value held by the target namespace beside another namespace: applied", 20, get("cross-namespace:applied"));
+	// long values
+	ctx.floor("long values (k ASCII characters and a last character of 1-4 bytes)", (long_max_k as u64 + 1) * long_widths.len() as u64, long_counts.values);
+	ctx.floor("long values: applications that changed the set", 20 * long_counts.values, get("long:applied") + get("long:applied-where-refusal-allowed"));
+	ctx.floor("long values: refusals (the messages quote the values)", 100 * long_counts.values, get("long:refused-inconsistent"));
+	ctx.floor("long values through text: applied", 20 * long_counts.values, get("long-text:applied") + get("long-text:applied-where-refusal-allowed"));
+	ctx.floor("long values through text: refused", 50 * long_counts.values, get("long-text:refused-inconsistent"));
+	// big texts, damaged bytes
+	ctx.floor("texts with a region moved across a buffer boundary, read and applied", big_counts.boundary_texts, get("big-text:applied") + get("big-text:shuffled-applied"));
+	ctx.floor("largest text in bytes", 200_000, big_counts.largest_text_bytes);
+	ctx.floor("pairs of sets with hundreds and thousands of entries through text", 4, big_counts.many_entries);
+	ctx.floor("files cut short or holding bytes that are not UTF-8: refused", 500, get("damaged-bytes:read-refused"));
+	ctx.floor("files cut short: accepted (and applied without a panic)", 20, get("damaged-bytes:read-accepted"));
+	ctx.floor("missing file and directory refused", 2, get("damaged-bytes:path-refused"));
+	ctx.floor("files with long names holding wide characters and blanks: read", 100, get("damaged-bytes:odd-path-accepted-content:read"));
+	ctx.floor("files with long names holding wide characters and blanks: refused for their content", 100, get("damaged-bytes:odd-path-refused-content:refused"));
+	// namespace names
+	ctx.floor("applications with a namespace name that resembles the target namespace, refused", 5000, get("namespace-argument:resembling:refused"));
+	ctx.floor("three-namespace targets whose other namespace resembles the target namespace", 24, nsname.resembling_targets);
+	ctx.floor("resembling namespaces: applications that changed the set", 1000, get("resembling:applied") + get("resembling:applied-where-refusal-allowed"));
+	ctx.floor("resembling namespaces: refusals", 1000, get("resembling:refused-inconsistent"));
 	ctx.floor("apply_diff_option cells", 72, option_cells);
 	ctx.floor("apply_diff_option refusals", 20, get("option:refused"));
 
@@ -1538,9 +1647,17 @@ fn main() {
 	}
 	samples.extend(pair_stats.samples.iter().cloned());
 	samples.extend(sibling_stats.samples.iter().cloned());
+	samples.extend(values.stats.samples.iter().take(3).cloned());
 
-	let evaluations = tally.evaluations + pair_stats.evaluations + sibling_stats.evaluations + nsarg_stats.evaluations + damaged_stats.evaluations;
+	let evaluations = tally.evaluations + pair_stats.evaluations + sibling_stats.evaluations + nsarg_stats.evaluations + damaged_stats.evaluations
+		+ values.stats.evaluations + bytes_stats.evaluations + nsname.stats.evaluations;
 	let cells_json: BTreeMap<String, Value> = cells.iter().map(|(k, (ok, refused))| (k.clone(), json!({"ok": ok, "refused": refused}))).collect();
+	let value_json = json!({"probe": "class p/A (field f:I, method m(I)V, parameter 0) beside a twin field, method, parameter and a second class", "family": "entry absent / without target name (or comment) / base value / the value / a third value", "families": values.families, "families_by_slot": values.by_slot, "sets": values.sets,
+		"per_family": "every ordered pair through the pair law (object, text in two line orders, sparse diff); the real and the sparse diff of every pair on every other set of the family (sparse also through text)"});
+	let long_targets = ["full", "every entry without name and comment", "the other values", "empty", "the class without members (diffs of field and method level)", "the method without parameters (diffs of parameter level)"];
+	let long_json = json!({"max_ascii_run": long_max_k, "last_characters": long_widths.iter().map(|c| c.to_string()).collect::<Vec<_>>(), "values": long_counts.values, "targets": long_targets, "cases": long_counts.cases});
+	let big_json = json!({"buffer_boundaries": big_boundaries, "boundary_texts": big_counts.boundary_texts, "largest_text_bytes": big_counts.largest_text_bytes, "pairs_with_many_entries": big_counts.many_entries});
+	let nsname_json = json!({"resembling_arguments": nsname.stats.evaluations, "three_namespace_targets": nsname.resembling_targets, "cases": nsname.resembling_cases});
 	let coverage = json!({
 		"states": graph_states,
 		"distinct_sets_reached": s_all.len(),
@@ -1549,7 +1666,7 @@ fn main() {
 		"traces_validated_against_impl": n_transitions,
 		"max_depth": graph_max_depth,
 		"evaluations": evaluations,
-		"distinct_nontrivial": tally.distinct.len() + pair_stats.distinct.len() + sibling_stats.distinct.len(),
+		"distinct_nontrivial": tally.distinct.len() + pair_stats.distinct.len() + sibling_stats.distinct.len() + values.stats.distinct.len(),
 		"rule": "a state is (number of diffs applied, two-namespace mapping set); a transition builds the real Mappings and MappingsDiff, runs the real apply_to (in 2-3 insertion orders) and compares the projected result with the reference apply; distinct_nontrivial = distinct (target, diff) cases whose application changed the set or was refused, plus distinct ordered pairs (A,B) taken through the real diff → apply_to (→ .tinydiff text → read_file → apply_to). evaluations counts executions of real apply_to / diff / read_file / apply_diff_option",
 		"exhaustive": caps_hit.is_empty(),
 		"caps_hit": caps_hit,
@@ -1571,8 +1688,15 @@ fn main() {
 			"sibling_universes": sibling_json,
 			"diff_of_pair_on_third_set": {"third_sets": "for (A,B): every set of the universe whose reference diff from A has exactly one action", "cases": third_cases},
 			"three_namespaces": {"sources": "the reached sets of depth <= 1, each with an extra namespace before and behind the target namespace", "targets": wide_targets, "diffs_per_target": if wide_pairs == Pairs::All { "every one- and two-slot diff" } else { "every one-slot diff and the parent+child two-slot diffs" }, "cases": wide_cases},
-			"escape_space": {"alphabet": text::ESCAPE_ALPHABET.iter().map(|c| c.to_string()).collect::<Vec<_>>(), "max_length": escape_len, "strings": escape_counts.strings, "forms_per_string_and_level": ["add", "remove", "edit to", "edit from", "remove with another value in the target"], "pair_max_length": escape_pair_len, "ordered_pairs_of_strings": escape_counts.string_pairs},
+			"escape_space": {"alphabet": text::ESCAPE_ALPHABET.iter().map(|c| c.to_string()).collect::<Vec<_>>(), "max_length": escape_len, "strings": escape_counts_1.strings,
+				"second_alphabet": text::ESCAPE_ALPHABET_2.iter().map(|c| c.to_string()).collect::<Vec<_>>(), "second_max_length": escape2_len, "second_strings": escape_counts_2.strings, "second_pair_max_length": 2, "forms_per_string_and_level": ["add", "remove", "edit to", "edit from", "remove with another value in the target"], "pair_max_length": escape_pair_len, "ordered_pairs_of_strings": escape_counts.string_pairs},
 			"damaged_texts": damaged_stats.evaluations,
+			"value_space": value_json,
+			"cross_namespace_cases": cross_cases,
+			"long_values": long_json,
+			"big_texts": big_json,
+			"damaged_bytes": bytes_stats.evaluations,
+			"namespace_names": nsname_json,
 		},
 		"outcomes": outcomes,
 		"single_slot_cells": cells_json,
@@ -1582,10 +1706,15 @@ fn main() {
 		"apply_diff_option_table": option_rows,
 		"pairs": {"sets": n, "ordered_pairs": n * n, "text_legs": selfcheck_run},
 		"wall_s_state_graph": (graph_wall * 1000.0).round() / 1000.0,
+		"wall_s_after_escape_spaces": (escapes_wall * 1000.0).round() / 1000.0,
+		"wall_s_after_value_space": (values_wall * 1000.0).round() / 1000.0,
+		"wall_s_after_long_values": (long_wall * 1000.0).round() / 1000.0,
 	});
 	ctx.finish(coverage, &[
 		"names and comments come from a two-value alphabet per slot; names containing TAB/newline are outside the formats",
-		"comments that are empty or contain a TAB or a carriage return are applied and diffed as objects but not taken through .tinydiff text (empty cell = absent in the text form; the format has no escape for the other two)",
+		"comments that are empty are applied and diffed as objects but not taken through .tinydiff text (empty cell = absent in the text form); TAB, carriage return and NUL travel with the escapes of Tiny v2",
+		"names (JVMS 4.2.2) may hold blanks, backslashes and any character but . ; [ / (methods: < >); names holding a TAB, a line break or a carriage return cannot be written in the text form and are not explored",
+		"a file that is cut short, is not UTF-8 or has an odd name, and a namespace renamed to the name of another namespace, are outside the statement: only panics and hangs are judged",
 		"the text form is the one of the reference printer (the repository has no writer for .tinydiff); the same lines in another sibling order may be refused by the reader, but if read they must mean the same",
 		"two equal columns in the text say 'no action': where the object form Edit(a, a) must be refused (a is not the target's value) the text form may be refused or applied as a no-op",
 		"targets with a third namespace are applied to (either non-first namespace as target); diff() exists for two namespaces only",
@@ -1656,6 +1785,16 @@ fn replay(ctx: &'static Ctx, eng: &'static Engine, path: &Path) -> ! {
 			}
 			if let Err(p) = &r1 {
 				ctx.diff(&format!("text:panic@{}", p.file()), &format!("tiny_v2_diff::read_file panicked at {}: {}", p.site, p.msg), || body.clone());
+			}
+		},
+		"damaged-bytes" => {
+			let bytes = vcore::unhex(&p_str(&v, "hex")).unwrap_or_else(|| bad_replay("hex"));
+			let (mut s1, mut s2) = (Stats::new(), Stats::new());
+			odd::judge_bytes(eng, &p_str(&v, "name"), &bytes, &mut s1);
+			odd::judge_bytes(eng, &p_str(&v, "name"), &bytes, &mut s2);
+			println!("outcomes: {:?}", s1.outcomes);
+			if s1.outcomes != s2.outcomes {
+				vcore::machinery_fail("replay is not deterministic");
 			}
 		},
 		"namespace-argument" => {
